@@ -9,6 +9,8 @@ NOTE = ("Trusted base: go/types, go/ssa, the VTA/CHA call graph (x/tools v0.29.0
         "it does not execute parsley code.")
 
 CLAIMED = {
+ "C10": dict(ref="§4 C10", technique="table agreement between the statement's mode table and SkipWhitespaces' return structure (dominating mode/run conditions, error variable, position kind), constant-set rule for the whitespace alphabet, sibling agreement over the SetReaderPos implementations, path-sensitive return analysis of LeftTrim, dominance rule in Parse",
+   text="Static rules deciding, for all whitespace runs and mode assignments, that the code's mode table equals the statement's (which mode fails, with which error, at which position, under which run condition; exhaustive over the declared modes), that the skipped alphabet and the line-break subset are exactly those stated, that LeftTrim returns the sub-parser's own node called right after the run, that right-trimming moves only the end (per node, from its own end) and that whitespace errors win in Parse. Transparency of permitted whitespace as a relation between two parses is not decided."),
  "C06": dict(ref="§4 C06", technique="error-discipline rule (Engler-style) over all nested parser calls: forward value flow of the error result, guard-vocabulary check of the conditions under which it is kept, sink reachability (returned error / Context.SetError), loop-carried accumulator dependence; provenance rule for error positions",
    text="Static error-discipline rules deciding, for every grammar and input, that no combinator loses a failure (each nested call's error is kept under error/position conditions only, reaches a returned error or SetError, and accumulated errors are recorded on success) and that error positions are never fabricated by arithmetic. Decides a necessary condition of 'the reported position is the furthest failure'; equality with the maximum and the rendered line:column are not decided."),
  "C13": dict(ref="§4 C13", technique="structural SSA rules over the four tree passes: call-site inventory, argument identity, dominance of guards (guard vocabulary), loop-header dominance of returns, full-range index recognition",
